@@ -63,7 +63,8 @@ Module Machine (S : TRANSC).
   Inductive op :=
   | SetW (w : list T) | SetMu (mu : list (list T)) | SetVar (v : list (list T)) | SetThr (t : thr_t)
   | EmStep (sw : switches) (eps : T) (nf : nat) (X : list (list T))
-  | Copy | Pickle | SaveLoad.
+  | Copy | Pickle | SaveLoad
+  | LoadOther (w : list T) (mu v : list (list T)) (t : thr_t).   (* GMMMachine.load of a file holding ANOTHER model into this object *)
   (* deepcopy and pickle preserve every field; loading rebuilds the object from the visible
      parameters and floors through the constructor and the setters *)
   Definition rebuild (m : mach) : mach :=
@@ -74,6 +75,7 @@ Module Machine (S : TRANSC).
     | SetW w => set_w m w | SetMu mu => set_mu m mu | SetVar v => set_var m v | SetThr t => set_thr m t
     | EmStep sw eps nf X => em_step sw eps nf m X
     | Copy => m | Pickle => m | SaveLoad => rebuild m
+    | LoadOther w mu v t => set_var {| o_w := w; o_lw := map ln w; o_mu := mu; o_var := []; o_gn := []; o_thr := t |} v
     end.
   Definition run (m : mach) (ops : list op) : mach := fold_left step ops m.
   (* a freshly constructed machine given weights, means, variances and floors *)
